@@ -6,5 +6,6 @@ StakeSkew == [o \in Oracle |-> CASE o = "o1" -> 5 [] o = "o2" -> 3 [] o = "o3" -
 StakeEdge2 == [o \in Oracle |-> CASE o = "o1" -> 65 [] o = "o2" -> 35 [] OTHER -> 1]
 \* total not a multiple of 100 (the bar 66*total/100 truncates differently from (total/100)*66); one oracle holds just over half
 StakeOdd2 == [o \in Oracle |-> CASE o = "o1" -> 100 [] o = "o2" -> 99 [] OTHER -> 1]
+StakeRec == [o \in Oracle |-> CASE o = "o1" -> 40 [] o = "o2" -> 30 [] o = "o3" -> 20 [] o = "o4" -> 10 [] OTHER -> 5]
 StakeEdge3 == [o \in Oracle |-> CASE o = "o1" -> 34 [] o = "o2" -> 33 [] o = "o3" -> 33 [] OTHER -> 1]
 =============================================================================
